@@ -117,7 +117,8 @@ def main(argv=None):
 
 def worker_env(w):
     env = dict(os.environ)
-    env["PYTHONHASHSEED"] = HASHSEEDS[w % len(HASHSEEDS)]
+    shift = int(os.environ.get("VERIF_HASHSEED_SHIFT", "0"))
+    env["PYTHONHASHSEED"] = HASHSEEDS[(w + shift) % len(HASHSEEDS)]
     env["PYTHONDONTWRITEBYTECODE"] = "1"
     env["PYTHONPATH"] = VERIF
     env.pop("PYTHONSTARTUP", None)
@@ -172,6 +173,8 @@ def do_check(prop, tier, seed, runs, jobs):
     for w, p in enumerate(procs):
         sel.register(p.stdout, selectors.EVENT_READ, w)
     open_n = len(procs)
+    n_viol_runs = 0
+    stopped_early = False
     limit = mod.WALL.get(tier, 3600) if hasattr(mod, "WALL") else 3600
     while open_n:
         if time.time() - t0 > limit:
@@ -198,12 +201,22 @@ def do_check(prop, tier, seed, runs, jobs):
                 dups[rec["run"]].append((rec["hashseed"], rec["digest"]))
             else:
                 results[rec["run"]] = rec
+                if any(not (v.get("key") and v["key"] in known.get(prop, {})) for v in rec.get("violations", [])):
+                    n_viol_runs += 1
+        if n_viol_runs >= 4 and not stopped_early:
+            # the verdict is already decided: do not spend the budget minimising the same failure over and over
+            stopped_early = True
+            for p in procs:
+                p.terminate()
+            break
     for w, p in enumerate(procs):
         rc = p.wait()
-        if rc != 0:
+        if rc != 0 and not stopped_early:
             harness_errors.append("worker %d exit %d" % (w, rc))
+    if stopped_early:
+        print("stopped early: violations in %d runs already decide the verdict" % n_viol_runs)
     missing = [i for i in range(runs) if i not in results]
-    if missing and not harness_errors:
+    if missing and not harness_errors and not stopped_early:
         harness_errors.append("missing results for runs %s" % missing[:10])
 
     # determinism / hash-seed independence of per-run digests
@@ -252,6 +265,9 @@ def do_check(prop, tier, seed, runs, jobs):
             break
 
     wall = time.time() - t0
+    if os.environ.get("VERIF_DIGEST_DUMP"):
+        with open(os.environ["VERIF_DIGEST_DUMP"], "w") as f:
+            json.dump({str(i): results[i]["digest"] for i in sorted(results)}, f)
     write_evidence(prop, tier, seed, mod, results, wall, len(violations), known_hits, harness_errors, dups,
                    digest_mismatch, jobs)
     print("%s tier=%s seed=%d runs=%d violations=%d known=%d harness_errors=%d wall=%.1fs" %
@@ -311,8 +327,16 @@ def write_evidence(prop, tier, seed, mod, results, wall, nviol, known_hits, harn
         "wall_s": round(wall, 2),
         "violations": nviol,
     }
-    os.makedirs(os.path.join(VERIF, "evidence"), exist_ok=True)
-    with open(os.path.join(VERIF, "evidence", prop + ".json"), "w") as f:
+    evdir = os.path.join(VERIF, "evidence")
+    if os.environ.get("VERIF_NO_EVIDENCE"):
+        return
+    if os.path.abspath(boot.REPO) != "/repo":
+        # sensitivity runs against a scratch copy must never overwrite the evidence of /repo
+        evdir = os.environ.get("VERIF_EVIDENCE_DIR")
+        if not evdir:
+            return
+    os.makedirs(evdir, exist_ok=True)
+    with open(os.path.join(evdir, prop + ".json"), "w") as f:
         json.dump(ev, f, indent=1, sort_keys=True, default=_json_default)
         f.write("\n")
 
